@@ -432,6 +432,73 @@ def dictStarTree : Tree :=
 
 example : occursTree 4 dictStarTree = true ∧ occursTree 9 dictStarTree = false := by decide
 
+/-! ## Removal fixes: the statement may go iff it binds nothing but the unused name -/
+
+/-- Full statement: whenever the guard of `_check_function_unused_vars` (regenerated from the live source:
+`Gen.removalGuard`) lets the whole statement be deleted for the unused name `u`, the statement binds no
+other name. -/
+def removal_binds_only_unused_full : Prop :=
+  ∀ (s : AssignStmt) (u : String), Gen.removalGuard s u = true → s.topLevelOk = true → u ∈ s.bound →
+    soleBinding s u = true
+
+/-- **removal_binds_only_unused_partial.** True for every assignment whose value (and subscript / attribute
+targets) contains no `:=` — chained assignments, tuple / list / starred / nested targets in any position:
+the guard admits none of them. -/
+theorem removal_binds_only_unused_partial (s : AssignStmt) (u : String) (hg : Gen.removalGuard s u = true)
+    (hw : s.topLevelOk = true) (hD : bindsInValue s = false) (hu : u ∈ s.bound) : soleBinding s u = true := by
+  have hv : s.valueBinds = [] := by
+    unfold bindsInValue at hD
+    simpa using hD
+  unfold soleBinding AssignStmt.bound at *
+  rw [hv, List.append_nil] at hu ⊢
+  apply List.all_eq_true.mpr
+  intro x hx
+  have := removalGuard_single_target_binding s u hg hw x hx u hu
+  simp [this]
+
+/-- **Exception class `walrusInRemoved`.** `z = (y := a) + 1` with `y` unused: one plain target, so the
+guard holds — and the statement that goes also binds `z`. -/
+theorem walrusInRemoved_witness : ¬ removal_binds_only_unused_full := by
+  intro h
+  have := h ⟨.cons (.name "z") .nil, ["y"]⟩ "y" (by decide) (by decide) (by decide)
+  revert this
+  decide
+
+/-- The guard rejects what the seeded variants of it admitted: a chained assignment whose first target is
+the unused name, and unpacking targets. -/
+theorem removal_guard_rejects_chained_and_unpacking :
+    Gen.removalGuard ⟨.cons (.name "first") (.cons (.name "total") .nil), []⟩ "first" = false ∧
+    Gen.removalGuard ⟨.cons (.tuple (.cons (.name "lo") (.cons (.name "hi") .nil))) .nil, []⟩ "lo" = false ∧
+    Gen.removalGuard ⟨.cons (.name "whole") (.cons (.tuple (.cons (.name "lo") (.cons (.name "hi") .nil))) .nil), []⟩ "whole" = false ∧
+    Gen.removalGuard ⟨.cons (.name "x") .nil, []⟩ "x" = true := by decide
+
+/-- **remove_sole_binding_safe (straight-line def-use, full strength).** If the removed statement binds
+nothing but `u` and nobody reads `u` afterwards, every later read resolves exactly as before: the statements
+after it have the same undefined reads with and without it. -/
+theorem remove_sole_binding_safe (env : List String) (s : Stmt) (post : List Stmt) (u : String)
+    (hs : ∀ x ∈ s.binds, x = u) (hu : u ∉ readsOf post) :
+    undefReads (env ++ s.binds) post = undefReads env post :=
+  undefReads_irrelevant s.binds post env (fun x hx => by rw [hs x hx]; exact hu)
+
+/-- **remove_breaks_other_binding (the converse, full strength).** If the removed statement binds another
+name `x` that a later statement reads before anything else binds it, that read was defined with the
+statement and is undefined without it. -/
+theorem remove_breaks_other_binding (env : List String) (s r : Stmt) (p1 p2 : List Stmt) (x : String)
+    (hx : x ∈ s.binds) (hne : x ∉ env ++ bindsOf p1) (hr : x ∈ r.reads) :
+    x ∉ undefReads (env ++ s.binds) (p1 ++ r :: p2) ∧ x ∈ undefReads env (p1 ++ r :: p2) := by
+  refine ⟨not_undef_of_env _ _ x (by simp [hx]), ?_⟩
+  rw [undefReads_append]
+  apply List.mem_append_right
+  simp only [undefReads, List.mem_append, List.mem_filter]
+  left
+  refine ⟨hr, ?_⟩
+  simp only [List.contains_eq_mem, Bool.not_eq_true', decide_eq_false_iff_not]
+  exact hne
+
+-- `first = total = 10` / `return total`: with the statement `total` is defined, without it it is not
+example : undefReads [] [⟨[], ["first", "total"]⟩, ⟨["total"], []⟩] = [] ∧
+    undefReads [] [⟨["total"], []⟩] = ["total"] := by decide
+
 /-! ## Non-vacuity: the hypotheses are met by non-trivial inputs -/
 
 def exState : St :=
